@@ -123,7 +123,16 @@ func account(sc *scenario, n int, o *outcome, v verdict) {
 	hx.Eval()
 	hx.Class("ctx/" + sc.Ctx)
 	hx.Class("scheme/" + map[bool]string{true: "ws-or-wss", false: sc.Scheme}[sc.Scheme == ""])
-	hx.Class("entry/" + map[bool]string{true: "Dialer.Dial", false: "ws.Dial+DefaultDialer"}[sc.Entry == ""])
+	hx.Class("entry/" + map[string]string{"": "Dialer.Dial", "package": "ws.Dial+DefaultDialer", "debug": "wsutil.DebugDialer/" + sc.Debug}[sc.Entry])
+	if sc.DialIgnoresCtx {
+		hx.Class("netdial/ignores-its-context")
+	}
+	if o.DoneAtObtain {
+		hx.Class("netdial/conn-handed-out-with-context-already-done")
+	}
+	if sc.Peer.TimeoutErr != "" {
+		hx.Class("conn/timeout-error-" + sc.Peer.TimeoutErr)
+	}
 	hx.Class("wrap/" + map[bool]string{true: "none", false: sc.Wrap}[sc.Wrap == ""])
 	hx.Class("timeout/" + timeoutClass(sc))
 	hx.Class("peer/" + peerClass(&sc.Peer))
@@ -167,7 +176,7 @@ func account(sc *scenario, n int, o *outcome, v verdict) {
 		return
 	}
 	hx.Class("nontrivial")
-	key := hx.Hash(sc.Scheme, sc.Entry, sc.Wrap, sc.Ctx, timeoutClass(sc), peerClass(&sc.Peer), sc.RBuf, sc.WBuf, n, sc.Plan.label(), sc.Plan.IO, v.BoundKind, o.AtReturn.IOs, v.Outcome)
+	key := hx.Hash(sc.DialIgnoresCtx, sc.Debug, sc.Scheme, sc.Entry, sc.Wrap, sc.Ctx, timeoutClass(sc), peerClass(&sc.Peer), sc.RBuf, sc.WBuf, n, sc.Plan.label(), sc.Plan.IO, v.BoundKind, o.AtReturn.IOs, v.Outcome)
 	hx.NonTrivial(key, func() interface{} { return describe(sc, n, o, v) })
 }
 
@@ -203,9 +212,15 @@ func drawConfig(t *rapid.T) *scenario {
 	p.Gate = rapid.SampledFrom([]int{0, 0, 0, 0, 0, 10, 30, -1}).Draw(t, "gate")
 	p.SlowDL = rapid.IntRange(0, 2).Draw(t, "slowSetDeadline") == 0
 	sc.Scheme = rapid.SampledFrom([]string{"", "", "", "", "", "", "", "", "", "WS", "http", "https", "wws", "path", "bad"}).Draw(t, "scheme")
-	if rapid.IntRange(0, 3).Draw(t, "entry") == 0 {
+	switch rapid.IntRange(0, 5).Draw(t, "entry") {
+	case 0:
 		sc.Entry = "package"
+	case 1, 2:
+		sc.Entry = "debug"
+		sc.Debug = rapid.SampledFrom([]string{"both", "both", "req", "resp", "none"}).Draw(t, "debugCallbacks")
 	}
+	sc.DialIgnoresCtx = rapid.IntRange(0, 5).Draw(t, "netDialIgnoresCtx") == 0
+	p.TimeoutErr = rapid.SampledFrom([]string{"", "", "nottemp", "operror"}).Draw(t, "timeoutErr")
 	sc.Wrap = rapid.SampledFrom([]string{"", "", "", "", "tlsclient", "wrapconn", "both", "tls-default"}).Draw(t, "wrap")
 	if sc.Wrap == "tls-default" {
 		// crypto/tls runs its handshake inside the first Write of the upgrade
@@ -438,6 +453,9 @@ type enumCfg struct {
 	rbuf, wbuf int
 	slowDL     bool
 	wrap       string
+	debug      string // wsutil.DebugDialer with these callbacks
+	ignoreCtx  bool   // NetDial ignores its context
+	timeoutErr string
 }
 
 // peers of the configurations that dial wss with crypto/tls's own client
@@ -460,6 +478,13 @@ var enumCfgs = []enumCfg{
 	{ctx: "value", rbuf: 32},
 	{ctx: "cancel", slowDL: true},
 	{ctx: "cancelcause"},
+	{ctx: "cancel", debug: "both"},
+	{ctx: "deadline", deadline: 993, timeout: 985, debug: "resp", wrap: "both"},
+	{ctx: "value", debug: "req", wbuf: 64, slowDL: true},
+	{ctx: "cancel", debug: "both", wrap: "tls-default"},
+	{ctx: "cancel", ignoreCtx: true, dialDelay: 10},
+	{ctx: "cancel", timeoutErr: "operror"},
+	{ctx: "custom", timeout: 995, timeoutErr: "nottemp", debug: "none"},
 	{ctx: "causechild", timeout: 995, wbuf: 64},
 	{ctx: "deadlinecause", deadline: 993, timeout: 985},
 	{ctx: "deadlinecause-child", deadline: 993, slowDL: true},
@@ -493,6 +518,11 @@ func TestEveryIOIndex(t *testing.T) {
 			if idx%3 == 0 {
 				base.Entry = "package"
 			}
+			if cfg.debug != "" {
+				base.Entry, base.Debug = "debug", cfg.debug
+			}
+			base.DialIgnoresCtx = cfg.ignoreCtx
+			base.Peer.TimeoutErr = cfg.timeoutErr
 			base.Peer.SlowDL = cfg.slowDL
 			n, dryOut, dryV := dryRun(t, &base)
 			if dryV.Violation != "" || dryV.Infra != "" {
@@ -539,7 +569,7 @@ func TestEveryIOIndex(t *testing.T) {
 			}
 		}
 	}
-	hx.Part("cancel before/after every handshake I/O index (forced) + unforced race at the last + pre/dial-return/after-return/never, 15 configurations x 11 peers + 2 crypto/tls configurations x 5 peers", total, true)
+	hx.Part("cancel before/after every handshake I/O index (forced) + unforced race at the last + pre/dial-return/after-return/never, 21 configurations x 11 peers + 3 crypto/tls configurations x 5 peers", total, true)
 }
 
 // TestEveryExpiryInstant enumerates the timer-driven ends: for stalling and
@@ -598,7 +628,7 @@ func TestEveryExpiryInstant(t *testing.T) {
 	idx := 0
 	for _, ep := range peers {
 		for _, dialDelay := range []int{0, 20} {
-			for wi, wbuf := range []int{0, 64, 0, 0} {
+			for wi, wbuf := range []int{0, 64, 0, 0, 0, 0} {
 				idx++
 				if !hx.Mine(idx) {
 					continue
@@ -613,6 +643,13 @@ func TestEveryExpiryInstant(t *testing.T) {
 					base.Wrap, base.TLSNilCfg = "tls-default", wi%2 == 1
 				case wi == 3:
 					base.Wrap = "both"
+				}
+				switch wi {
+				case 4:
+					base.Entry, base.Debug = "debug", "both"
+				case 5:
+					base.DialIgnoresCtx = true
+					base.Peer.TimeoutErr = "operror"
 				}
 				n, dryOut, _ := dryRun(t, &base)
 				for _, l := range limits {
@@ -641,7 +678,7 @@ func TestEveryExpiryInstant(t *testing.T) {
 			}
 		}
 	}
-	hx.Part("18 kinds of limit x 8 instants x (5 stalling/slow peers + 2 peers stalling inside the crypto/tls handshake) x NetDial delay {0,20ms} x {default write buffer, 64-byte write buffer, slow SetDeadline, TLSClient+WrapConn wrappers}", total, true)
+	hx.Part("18 kinds of limit x 8 instants x (5 stalling/slow peers + 2 peers stalling inside the crypto/tls handshake) x NetDial delay {0,20ms} x {default write buffer, 64-byte write buffer, slow SetDeadline, TLSClient+WrapConn wrappers, wsutil.DebugDialer, NetDial ignoring its context + *net.OpError timeouts}", total, true)
 }
 
 // TestEveryURLKind enumerates the URL dimension: every scheme (dialable and
@@ -652,7 +689,7 @@ func TestEveryURLKind(t *testing.T) {
 	var total int64
 	idx := 0
 	for _, scheme := range []string{"", "WS", "http", "https", "wws", "path", "bad"} {
-		for _, entry := range []string{"", "package"} {
+		for _, entry := range []string{"", "package", "debug"} {
 			for _, wrap := range []string{"", "tlsclient", "wrapconn", "both", "tls-default"} {
 				idx++
 				if !hx.Mine(idx) {
@@ -661,7 +698,7 @@ func TestEveryURLKind(t *testing.T) {
 				for _, ctx := range []string{"background", "cancel", "custom", "deadline", "cancelcause"} {
 					for _, pk := range []string{"never", "pre", "after-return"} {
 						for _, timeout := range []int{0, 55} {
-							sc := scenario{Scheme: scheme, Entry: entry, Wrap: wrap, Ctx: ctx, Deadline: 93, Timeout: timeout, DialDelay: 10,
+							sc := scenario{Scheme: scheme, Entry: entry, Debug: "both", Wrap: wrap, Ctx: ctx, Deadline: 93, Timeout: timeout, DialDelay: 10,
 								Peer: peerScript{Resp: "valid", Cuts: []int{500}, Deliver: -1}, Plan: plan{Kind: "never"}}
 							if wrap == "tls-default" {
 								sc.Peer = tlsPeers[2].p
@@ -693,7 +730,7 @@ func TestEveryURLKind(t *testing.T) {
 			}
 		}
 	}
-	hx.Part("7 URL kinds (ws/wss, upper-case, http, https, wws, path-only, unparseable) x 2 entry points x 5 conn chains x 5 context kinds x {never, cancelled before Dial, cancelled after return} x Timeout {0, 55ms}", total, true)
+	hx.Part("7 URL kinds (ws/wss, upper-case, http, https, wws, path-only, unparseable) x 3 entry points x 5 conn chains x 5 context kinds x {never, cancelled before Dial, cancelled after return} x Timeout {0, 55ms}", total, true)
 }
 
 // ---------------------------------------------------------------------------
